@@ -566,7 +566,7 @@ def run(args):
     else:
         shapes = [(3, 2, "real", [[0, 1, 2]]), (3, 3, "real", [[0, 1, 2]]), (4, 2, "real", [[0, 1, 2, 3]]), (4, 3, "real", [[0, 1, 2, 3]]),
                   (4, 4, "real", [[0, 1, 2, 3]]), (5, 3, "real", [[0, 1, 2, 3, 4]]), (5, 2, "real", [[0, 1, 2, 3, 4]]), (4, 3, "real", [[0, 2], [1, 3]]),
-                  (5, 3, "real", [[0, 2, 4], [1, 3]]), (6, 2, "real", [[0, 1, 2, 3, 4, 5]]), (3, 4, "real", [[0, 1, 2]]),
+                  (6, 3, "real", [[0, 2, 4], [1, 3, 5]]), (6, 2, "real", [[0, 1, 2, 3, 4, 5]]), (3, 4, "real", [[0, 1, 2]]),
                   (2, 2, "fp32", [[0, 1]]), (3, 2, "fp32", [[0, 1, 2]])]      # float32 beyond 3x2: neither z3 nor cvc5 finishes (3x3: > 15 min)
     stats = Stats()
     violations = []
@@ -594,7 +594,7 @@ def run(args):
         bounds=dict(shapes=[f"{n}x{d} {mode} groups={g}" for n, d, mode, g in shapes], unwinding="loops unrolled until the solver proves no further iteration reachable (cap 64)",
                     values="reals: unbounded and |x|<1e6; float32: all non-NaN incl. +-inf, and finite |x|<1e30",
                     prefilled_window="16 concrete antichain rows + 2 (quick) / 3 (thorough) symbolic rows x 3 columns: second BNL block reached",
-                    outside="numba fastmath code generation (replays run the compiled function), NaN, > 6 symbolic rows, third and later BNL blocks, "
+                    outside="numba fastmath code generation (replays run the compiled function), NaN, > 6 symbolic rows, groups of unequal size (the interpreter cannot merge arrays of different shapes), float32 beyond 3x2, third and later BNL blocks, "
                             "the numpy/pandas glue of fast_pareto_mask (group encoding, goal signs, prime-factor expansion, dedup) apart from the replays and the cast probe"),
         assumptions=["np.argsort(kind='mergesort') modelled as the (unique) stable sorting permutation",
                      "groups are given as a concrete partition (the contract of _encode_groups/_counting_sort)",
